@@ -87,6 +87,16 @@ def seeded(W):
     S["capture/nested-ct-same-index"] = isum(
         P(idx(ct(P(idx(ct(idx(A, i, j), i), 0), idx(v, j)), j), i), idx(w, i)), i)
     S["capture/sum-inside-ct-same"] = isum(P(idx(ct(P(isum(idx(A, i, i), i), idx(v, j)), j), i), idx(w, i)), i)
+    S["capture/ct-inside-ct-reindexed-by-bound"] = isum(
+        P(idx(ct(isum(P(idx(ct(idx(A, i, k), k), j), idx(B, i, j)), j), i), j), idx(w, j)), j)
+    S["capture/inner-ct-binds-image"] = isum(isum(
+        P(idx(ct(idx(ct(P(idx(A, i, j), idx(v, j)), j), k), i), j), idx(B, j, k)), k), j)
+    S["capture/two-images-swapped"] = isum(isum(
+        P(idx(ct(isum(P(idx(T, i, j, k), idx(w, k)), k), i, j), j, i), idx(A, i, j)), j), i)
+    S["shadow/inner-sum-rebinds-ct-index"] = isum(
+        P(idx(ct(P(idx(v, i), isum(P(idx(A, i, i), idx(w, i)), i)), i), j), idx(w, j)), j)
+    S["shadow/inner-ct-rebinds-ct-index"] = isum(
+        P(idx(ct(P(idx(v, i), idx(ct(idx(w, i), i), 0)), i), j), idx(w, j)), j)
     S["shadow/sum-twice-same-index"] = P(isum(idx(v, i), i), isum(idx(w, i), i))
     S["shadow/sum-in-sum-same-index"] = isum(P(idx(v, i), isum(idx(A, i, i), i)), i)
     S["shadow/ct-rebinding-outer"] = isum(P(isum(P(idx(ct(idx(A, i, j), i), j), idx(v, j)), j), idx(w, i)), i)
@@ -288,10 +298,9 @@ def specs(tier):
     for p in PASSES:
         for r in range(n):
             depth = 2 + (r % 3)
-            # index reuse across scopes is exercised at random for the passes that are
-            # expected to be hygienic on it; for remove_component_tensors the reuse cases
-            # are the hand-seeded ones (see known_findings.json: capture in IndexReplacer)
-            reuse = p != "remove_component_tensors"
+            # index reuse across scopes is exercised at random for every pass (for remove_component_tensors since
+            # the capture defect of IndexReplacer was repaired, see known_findings.json)
+            reuse = True
             S.append(dict(name=f"{p}/rand/seed={seed0}/n={r}/depth={depth}", family="rand", seed=seed0 * 100003 + r,
                           depth=depth, reuse=reuse, **{"pass": p}))
     return S
